@@ -159,6 +159,51 @@ def run(ctx):
             st["agreed"] += 1
             st["distinct"].add(("root", j["base"]))
         st["hist"]["failing_root_%s" % j["kind"]] += 1
+    # ---- (1c) `archives`: an archive that cannot be opened (mode 000 for uid 65534, or a dangling link named *.zip) is skipped on its own ----
+    import random as _random
+    from . import c19
+    ajobs = []
+    for t in range(8 if ctx.tier == "quick" else 100):
+        base = os.path.join(ctx.scratch, "fa%d" % t)
+        a = os.path.join(base, "a")
+        os.makedirs(os.path.join(a, "sub"))
+        os.makedirs(os.path.join(base, "b"))
+        for i in range(rng.randint(3, 9)):
+            open(os.path.join(a, "f%02d.txt" % i), "w").close()
+        open(os.path.join(a, "sub", "inner.txt"), "w").close()
+        open(os.path.join(base, "b", "other.txt"), "w").close()
+        members = []
+        while len(members) < 2:
+            members = c19.make_zip(rng, os.path.join(a, "good.zip"))
+        kind = rng.choice(["locked", "dangling", "both"])
+        if kind in ("locked", "both"):
+            c19.make_zip(rng, os.path.join(a, "locked.zip"))
+            os.chmod(os.path.join(a, "locked.zip"), 0o000)
+        if kind in ("dangling", "both"):
+            os.symlink("no-such-archive", os.path.join(a, rng.choice(["stale.zip", "stale.JAR"])))
+        os.chmod(base, 0o755)
+        for mode in ("", " dfs"):
+            ajobs.append(dict(base=base, q="path from fa%d archives%s into list" % (t, mode), members=members, kind=kind))
+
+    def aone(j):
+        return ctx.impl.rows([j["q"]], cwd=ctx.scratch, user=NOBODY)
+
+    for j, r in zip(ajobs, pmap(aone, ajobs)):
+        st["evaluations"] += 1
+        rows = [v.decode("utf-8", "surrogateescape") for v in r["values"]]
+        err = r["stderr"].decode("utf-8", "replace")
+        rb = os.path.basename(j["base"])
+        case = {"tree": j["base"], "argv": [j["q"]], "uid": NOBODY, "unopenable": j["kind"]}
+        exp = [p_ for _, p_, _ in walklib.ref_listing(fstree.observe(j["base"]), rb, 0, 0)]
+        exp += ["[%s/a/good.zip] %s" % (rb, m_[0]) for m_ in j["members"]]
+        if sorted(rows) != sorted(exp):
+            ctx.violation("impl-violates-spec", "with `archives`, an archive that cannot be opened spoils other rows (missing %s, extra %s)" % (sorted(set(exp) - set(rows))[:5], sorted(set(rows) - set(exp))[:5]), input=case)
+        elif r["status"] != 0 or err:
+            ctx.violation("impl-violates-spec", "with `archives`, an archive that cannot be opened: status %s, stderr %r (expected a quiet skip)" % (r["status"], err[:200]), input=case)
+        else:
+            st["agreed"] += 1
+            st["distinct"].add(("arc", j["base"]))
+        st["hist"]["unopenable_archive_" + j["kind"]] += 1
     # ---- (2) unreadable files / dangling links: only their own content columns are empty ----
     for j in jobs[::2][: (8 if ctx.tier == "quick" else 150)]:
         st["evaluations"] += 1
@@ -258,7 +303,7 @@ def run(ctx):
                 ctx.notes.append("F47: witness no longer hangs (status %s); update KNOWN_FINDINGS.json" % r["status"])
     ctx.coverage.update(
         evaluations=st["evaluations"], distinct_nontrivial=len(st["distinct"]), traces_validated_against_impl=st["agreed"],
-        rule="(1b) two-root searches where one root is itself unlistable (mode 000) or a regular file: status 1, the root named once on stderr, the healthy root complete; (1) random trees with 0-3 directories made unlistable (modes 700/711/000) searched as uid 65534, bfs and dfs, with and without maxdepth: rows must be exactly the entries outside those directories, stderr must name each failing directory, status 1 iff one is in reach; compared with model.Walk (listable flags from the observer) and an independent listing; (2) files made unreadable (600) and dangling links: only their own sha1/line_count/is_shebang are empty, sizes and other rows unchanged (hashlib oracle); (3) the reader closes stdout after k bytes for k in %s.. x six formats x streamed/ordered/filtered paths (+ aggregate and grouped): status 0 or 1 and no panic text. non-trivial = a run with at least one fault in reach" % offsets[:6],
+        rule="(1c) the archives option over a tree with a mode-000 archive and/or a dangling link named *.zip, as uid 65534: every other row (incl. the members of the readable archive) present, status 0, stderr empty; (1b) two-root searches where one root is itself unlistable (mode 000) or a regular file: status 1, the root named once on stderr, the healthy root complete; (1) random trees with 0-3 directories made unlistable (modes 700/711/000) searched as uid 65534, bfs and dfs, with and without maxdepth: rows must be exactly the entries outside those directories, stderr must name each failing directory, status 1 iff one is in reach; compared with model.Walk (listable flags from the observer) and an independent listing; (2) files made unreadable (600) and dangling links: only their own sha1/line_count/is_shebang are empty, sizes and other rows unchanged (hashlib oracle); (3) the reader closes stdout after k bytes for k in %s.. x six formats x streamed/ordered/filtered paths (+ aggregate and grouped): status 0 or 1 and no panic text. non-trivial = a run with at least one fault in reach" % offsets[:6],
         samples=st["samples"], distribution=dict(st["hist"]))
     return ctx.finish(trusted=["which write call the kernel fails after the reader closes the pipe depends on LineWriter buffering; the theorem quantifies over every write instead",
                                "permissions are judged for uid 65534 from the mode bits (files are created by root, so the 'other' bits apply)"])
